@@ -327,7 +327,7 @@ var oracleFn = func() map[string]bool {
 	m := map[string]bool{}
 	for _, n := range strings.Fields(`acos acosh asin asinh atan atan2 atanh cbrt ceil cos cosh erf erfc exp exp2 expm1 floor gamma hypot
 		j0 j1 jn log log10 log1p log2 logb mod pow pow10 sin sinh sqrt tan tanh trunc y0 y1 yn
-		strContainsAny strIndexAny strLastIndexAny strToLower strToUpper strTrim strTrimLeft strTrimRight strTrimSpace
+		strToLower strToUpper strTrimSpace
 		regexReplace unixNano minute hour weekday day month year humanBytes float string duration`) {
 		m[n] = true
 	}
